@@ -170,6 +170,21 @@ func transparentReadWrapper(fn *ssa.Function, ci ssa.CallInstruction) bool {
 	if len(args) == 0 || args[len(args)-1] != ssa.Value(fn.Params[len(fn.Params)-1]) {
 		return false
 	}
+	// every return hands back the (n, err) pair of a wrapped Read that was given the wrapper's own buffer (this call
+	// or a sibling call on another branch)
+	isWrapped := func(v ssa.Value) bool {
+		c, ok := v.(*ssa.Call)
+		if !ok || !c.Call.IsInvoke() || c.Call.Method.Name() != "Read" {
+			if !ok {
+				return false
+			}
+			if f := c.Call.StaticCallee(); f == nil || f.Name() != "Read" {
+				return false
+			}
+		}
+		a := c.Call.Args
+		return len(a) > 0 && a[len(a)-1] == ssa.Value(fn.Params[len(fn.Params)-1])
+	}
 	okRet := 0
 	for _, in := range instrsOf(fn) {
 		ret, ok := in.(*ssa.Return)
@@ -178,7 +193,7 @@ func transparentReadWrapper(fn *ssa.Function, ci ssa.CallInstruction) bool {
 		}
 		e0, ok0 := ret.Results[0].(*ssa.Extract)
 		e1, ok1 := ret.Results[1].(*ssa.Extract)
-		if !ok0 || !ok1 || e0.Tuple != ssa.Value(call) || e1.Tuple != ssa.Value(call) || e0.Index != 0 || e1.Index != 1 {
+		if !ok0 || !ok1 || e0.Tuple != e1.Tuple || !isWrapped(e0.Tuple) || e0.Index != 0 || e1.Index != 1 {
 			return false
 		}
 		okRet++
@@ -207,8 +222,11 @@ func checkReadCounts(p *Program, r *Result, fn *ssa.Function) {
 		}
 		bad := ""
 		seen := map[ssa.Value]bool{}
+		depth := 0
+		cur := fn
 		var walk func(v ssa.Value)
 		walk = func(v ssa.Value) {
+			fn := cur
 			if seen[v] || bad != "" {
 				return
 			}
@@ -254,7 +272,24 @@ func checkReadCounts(p *Program, r *Result, fn *ssa.Function) {
 				case ssa.CallInstruction:
 					if name := staticCalleeName(x.Common()); !strings.HasPrefix(name, "fmt.") && !strings.HasPrefix(name, "bytes.Equal") {
 						if _, isSlice := v.(*ssa.Slice); !isSlice {
-							bad = "passed to " + trimPkg(name)
+							// a repo helper: follow the count into the corresponding parameter
+							if g := x.Common().StaticCallee(); g != nil && g.Blocks != nil && p.isRepoFunc(g) && depth < 3 {
+								for i, a := range x.Common().Args {
+									if a == v && i < len(g.Params) {
+										depth++
+										prev := cur
+										cur = g
+										walk(g.Params[i])
+										cur = prev
+										depth--
+									}
+								}
+								if bad != "" && !strings.Contains(bad, " in ") {
+									bad += " in " + funcName(g)
+								}
+							} else {
+								bad = "passed to " + trimPkg(name)
+							}
 						}
 					}
 				}
